@@ -1099,8 +1099,9 @@ fn calc_compu_method_limits(
                         upper_limit = c.a * upper_limit + c.b;
                     } else {
                         // factor a is negative, so the lower and upper limits are swapped
-                        upper_limit = c.a * lower_limit + c.b;
-                        lower_limit = c.a * upper_limit + c.b;
+                        let (int_lower, int_upper) = (lower_limit, upper_limit);
+                        upper_limit = c.a * int_lower + c.b;
+                        lower_limit = c.a * int_upper + c.b;
                     }
                 }
             }
